@@ -43,6 +43,9 @@ func runC07(r *core.Run) {
 			n = []int{159, 160, 161, 400}[rng.Intn(4)]
 		}
 		kinds := []colGen{genNum(3), genText, genInt(2), genDT, genNum(40)}
+		if c%5 == 2 {
+			kinds[4] = genBig // integers around 2^53, 10^18 and the int64 bounds, a few floats among them
+		}
 		names := []string{"k1", "k2", "k3", "k4", "k5"}
 		cols := append([]string{"id"}, names...)
 		gens := append([]colGen{genID}, kinds...)
@@ -59,7 +62,9 @@ func runC07(r *core.Run) {
 		used := map[int]bool{}
 		for len(keys) < nk {
 			ci := 2 + rng.Intn(5)
-			if tiecut {
+			if c%5 == 2 && len(keys) == 0 && rng.Intn(2) == 0 {
+				ci = 6 // the big-number column leads
+			} else if tiecut {
 				ci = []int{2, 4, 2}[rng.Intn(3)] // k1: -3..3 as 3, 3.0, " 3 ", 03, 3.5; k3: 0..2
 			}
 			if used[ci] {
@@ -139,6 +144,9 @@ func runC07(r *core.Run) {
 			continue
 		}
 		rankStrings(t.Rows, res)
+		if compressNumeric(t.Rows, res) {
+			r.Count("events_with_numbers_beyond_tlc_range", 1)
+		}
 		evs = append(evs, relEvent{SQL: sql, Sig: sig, CPU: cpu, Ev: map[string]interface{}{
 			"kind": "sort", "in": cellsJSON(t.Rows), "res": cellsJSON(res), "keys": keys, "m": m, "lim": lim, "ties": ties, "idc": 1}})
 		r.Distinct(sql + fmt.Sprint(n))
